@@ -29,7 +29,7 @@ from fvrun.spec import Cube, Obligation
 
 PROPERTY = 'C17'
 EXPLANATION = (
-    'bounded exploration of the real entry points (CrossHair + z3): the API (52 call forms over building, printing, '
+    'bounded exploration of the real entry points (CrossHair + z3): the API (56 call forms over building, printing, '
     'rendering, serializing, diffing, validating, code generation, selection iteration, copying / casting, tag '
     'materialisation, history clearing, the visualize trimming helpers, tuple un-interning, Partial simplification) is '
     'the cube parameter; the configuration (shared nodes and containers, tags on keyword / positional / value-less '
@@ -187,6 +187,10 @@ APIS = [
     ('identity_rebuild', lambda c, n, v: _identity_rebuild(c), True),
     ('==', lambda c, n, v: (c == copy.deepcopy(c), c != n[0]), True),
     ('ordered_arguments', lambda c, n, v: fdl.ordered_arguments(c, include_defaults=True), True),
+    ('graphviz.render(max_depth, max_str_length)', lambda c, n, v: fdl_graphviz.render(c, max_depth=10, max_str_length=20), False),
+    ('graphviz.render(max_depth=1)', lambda c, n, v: fdl_graphviz.render(c, max_depth=1, max_str_length=20), False),
+    ('cast(same type) + edit result', lambda c, n, v: _edit_result(fdl.cast(type(c), c), v), True),
+    ('cast(Partial) + edit result', lambda c, n, v: _edit_result(fdl.cast(fdl.Partial, c), v), True),
     ('edit_copy_with_result', lambda c, n, v: _edit_result(fdl.copy_with(c), v), True),
     ('edit_trimmed_result', lambda c, n, v: _edit_result(visualize.with_defaults_trimmed(c), v), True),
 ]
@@ -212,7 +216,7 @@ def _ids(root):
 
 def c17_api(api: int, kw: bool, t1: int, t2x: int, t2y: int, w: int, kp: bool, lv: int) -> bool:
   """
-  require: 0 <= api < 52 and -1 <= t1 <= 0 and -1 <= t2x <= 1 and -1 <= t2y <= 1 and 0 <= w <= 5
+  require: 0 <= api < 56 and -1 <= t1 <= 0 and -1 <= t2x <= 1 and -1 <= t2y <= 1 and 0 <= w <= 5
   """
   t1, t2x, t2y, w = _conc(t1, -1, 0), _conc(t2x, -1, 1), _conc(t2y, -1, 1), _conc(w, 0, 5)
   name, fn, traced = APIS[api]
